@@ -203,6 +203,7 @@ def isZeroBlock (h : Bytes) : Bool := h.all (· = 0)
 structure ReadCfg where
   rejectOversizedMap : Bool := true
   xattrKeepOrder : Bool := false
+  schilyKeyDecode : Bool := true          -- `false`: the reader before `fixes/C04-xattr-key-escape.patch`
 
 /-- the `for (;;)` loop of `read_header`; `fuel` bounds the number of 512-byte records read -/
 def readHeaderLoop (cfg : ReadCfg) : Nat → Bytes → Decoded → Nat → Bool → ReadResult
@@ -250,7 +251,7 @@ def readHeaderLoop (cfg : ReadCfg) : Nat → Bytes → Decoded → Nat → Bool 
                 else match recordToMemory s sz with
                   | none => .err
                   | some (p, s') =>
-                    match readPaxHeader cfg.xattrKeepOrder p {} 0 with                -- `clear_header(out); set_by_pax = 0`
+                    match readPaxHeader ⟨cfg.xattrKeepOrder, cfg.schilyKeyDecode⟩ p {} 0 with                -- `clear_header(out); set_by_pax = 0`
                     | none => .err
                     | some (out', mask') => readHeaderLoop cfg f s' out' mask' false
             else
